@@ -48,6 +48,8 @@ pub enum CaseResult {
     Pass(Info),
     Discard(&'static str),
     Fail(Failure),
+    /// several independent failures found by one (batched) case
+    Fails(Vec<Failure>),
 }
 
 #[derive(Default, Clone)]
@@ -227,6 +229,27 @@ impl Run {
                     Ok(())
                 } else {
                     Err(f)
+                }
+            }
+            CaseResult::Fails(fs) => {
+                let mut first = None;
+                if !st.frozen {
+                    st.cases += 1;
+                }
+                for f in fs {
+                    if let Some(id) = self.known_sig(&f.sig) {
+                        if !st.frozen {
+                            *st.excluded_known.entry(id).or_default() += 1;
+                        }
+                    } else if first.is_none() {
+                        first = Some(f);
+                    } else {
+                        self.note_failure(f);
+                    }
+                }
+                match first {
+                    Some(f) => Err(f),
+                    None => Ok(()),
                 }
             }
         }
@@ -411,7 +434,11 @@ pub fn execute(
             }
         };
         let j: J = serde_json::from_str(&txt).expect("replay file is JSON");
-        match replay(&j["case"]) {
+        let rr = match replay(&j["case"]) {
+            CaseResult::Fails(mut fs) if !fs.is_empty() => CaseResult::Fail(fs.remove(0)),
+            x => x,
+        };
+        match rr {
             CaseResult::Fail(fail) => {
                 if f.status == "known" {
                     known_lines.push(format!("KNOWN-FINDING: property={} {} {} [{}]", id, f.id, f.what, fail.sig));
